@@ -59,6 +59,7 @@ def run(chk):
     chk.call(r1_evolve, chk)
     chk.call(r2_copy_branches, chk)
     chk.call(r3_state, chk)
+    chk.call(r7b_override_defaults, chk)
     chk.call(r4_r5_derived, chk)
     chk.call(r6_ensemble_copy, chk)
     chk.call(r7_ctor_forwarding, chk)
@@ -550,6 +551,34 @@ def r6_ensemble_copy(chk):
         takes = any(f"{src}.{acc}" in norm(x.value) or f"{src}.{cont}" in norm(x.value) for x in st)
         chk.decide(ok, "C06.R6", f"{init.key}:copies-{cont}", init.where(st[-1] if st else arm), f"{cont} = np.array(other.{acc})",
                    f"the ensemble copy branch " + (f"assigns `{short(st[-1], 60)}`: the array is shared with the source" if st and takes else f"does not transfer {acc}"))
+
+
+def r7b_override_defaults(chk):
+    """The copy constructors take `charge` / `mult` / `name` as *overrides*: the base constructor keeps the source's value when the
+    override is not given (`mult or pm.mult`, `charge if charge is not None else ...`).  "Not given" is None - a constructor in the
+    chain that declares `mult: int = 1` or `charge: int = 0` hands a real value down, and every copy (Molecule(m), the objects the
+    cdxml route wraps) comes out a singlet / neutral whatever the source was."""
+    prog = chk.prog
+    for spec in ("molli.chem.atom:Promolecule", "molli.chem.bond:Connectivity", "molli.chem.geometry:CartesianGeometry", "molli.chem.structure:Structure",
+                 "molli.chem.molecule:Molecule", "molli.chem.ensemble:ConformerEnsemble"):
+        ci = prog.cls(spec)
+        init = prog.method(ci, "__init__")
+        if init is None or init.cls != ci:
+            continue
+        a = init.node.args
+        pos = a.posonlyargs + a.args
+        defaults = dict(zip([x.arg for x in pos][len(pos) - len(a.defaults):], a.defaults))
+        defaults.update({x.arg: d for x, d in zip(a.kwonlyargs, a.kw_defaults) if d is not None})
+        for p_ in ("charge", "mult", "name"):
+            if p_ not in defaults:
+                continue
+            d = defaults[p_]
+            pm_init = prog.method(prog.cls("molli.chem.atom:Promolecule"), "__init__")
+            by_none = any(isinstance(c, ast.Compare) and isinstance(c.left, ast.Name) and c.left.id == p_ and any(isinstance(o, (ast.Is, ast.IsNot)) for o in c.ops) for c in ast.walk(pm_init.node))
+            harmless = isinstance(d, ast.Constant) and (d.value is None or (not d.value and not by_none))   # a falsy default reads as "not given" where the base tests by truthiness
+            chk.decide(harmless, "C06.R7", f"{init.key}:override-defaults-to-None:{p_}", init.where(), f"{p_} = {norm(d)}" + ("" if isinstance(d, ast.Constant) and d.value is None else " (falsy: read as not given)"),
+                       f"{ci.name}.__init__ declares `{p_} = {norm(d)}`: the base constructor takes that for an override given by the caller and drops the source's {p_} - "
+                       f"{ci.name}(source) no longer has the {p_} of its source")
 
 
 def r7_ctor_forwarding(chk):
